@@ -345,6 +345,7 @@ func runGen(args []string) int {
 	nyct := g.genNyct(repo)
 	footprint := g.genFootprint(repo)
 	panics := g.genPanicSites(repo)
+	comparators := g.genComparators(repo)
 	if len(g.errs) > 0 {
 		for _, e := range g.errs {
 			fmt.Fprintln(os.Stderr, "gen:", e)
@@ -365,6 +366,10 @@ func runGen(args []string) int {
 		return 1
 	}
 	if err := os.WriteFile(filepath.Join(out, "PanicSites.v"), []byte(panics), 0o644); err != nil {
+		fmt.Fprintln(os.Stderr, err)
+		return 1
+	}
+	if err := os.WriteFile(filepath.Join(out, "Comparators.v"), []byte(comparators), 0o644); err != nil {
 		fmt.Fprintln(os.Stderr, err)
 		return 1
 	}
